@@ -145,10 +145,34 @@ def same(a, b):
     return a == b
 
 
+def chaos(exe, count):
+    # arbitrary (mostly ill-nested) call sequences: an error is fine, a crash / sanitizer report / changed snapshot is not
+    alphabet = ['null', 'bool 1', 'int 3', 'real 1.5', 'str ab', 'bytes xy', '[', ']', '{', '{named rec', 'field x', 'field y', '}', '( 2', '( 0', '( -1', 'index 0', 'index 1', 'index 2', 'index -1', ')', 'snap', 'clear']
+    bad = 0
+    for t in range(count):
+        toks = [random.choice(alphabet) for _ in range(random.randint(1, 14))]
+        with tempfile.NamedTemporaryFile('w', suffix='.ab', delete=False) as f:
+            f.write(' '.join(toks))
+        r = subprocess.run([exe, f.name, str(random.choice([1, 2, 8]))], capture_output=True, text=True, timeout=30,
+                           env=dict(os.environ, ASAN_OPTIONS='detect_leaks=0', UBSAN_OPTIONS='halt_on_error=1:exitcode=87'), errors='replace')
+        os.unlink(f.name)
+        line = r.stdout.strip().replace('\n', ' ') if r.stdout.strip() else 'CRASH %d %s' % (r.returncode, r.stderr[-400:])
+        ok = line.startswith('ERR ') or (line.startswith('OK 0 |'))
+        if line.startswith('OK 0 ') and not line.startswith('OK 0 |'):
+            ok = False          # the snapshot is not a valid array
+        if not ok:
+            bad += 1
+            if bad <= 10:
+                print('CHAOS %s\n   -> %s' % (' '.join(toks), line[:500]))
+    print('chaos mismatches', bad, 'of', count)
+
+
 def main():
     seed, count = int(sys.argv[1]), int(sys.argv[2])
     random.seed(seed)
     exe = fullnative.link_driver(DRIVER, 'abprobe')
+    if 'chaos' in sys.argv:
+        return chaos(exe, count)
     bad = 0
     for t in range(count):
         values = [gen_value(3) for _ in range(random.randint(1, 5))]
